@@ -1535,7 +1535,8 @@ def loop_forms(tree):
 
 
 # functions of the repository that only compute a value from their arguments (checked by reading; they hold no state)
-REPO_PURE_FUNCS = {'_is_literally_representable', '_might_have_parameter', 'config_is_locked', 'current_scope', 'current_scope_str'}
+REPO_PURE_FUNCS = {'_is_literally_representable', '_might_have_parameter', 'config_is_locked', 'current_scope', 'current_scope_str',
+                   '_get_cached_arg_spec'}      # (the last one memoises per function object: same answer, no visible effect)
 _PURE_FUNCS = REPO_PURE_FUNCS | {'map', 'filter', 'len', 'isinstance', 'issubclass', 'tuple', 'list', 'set', 'frozenset', 'bool', 'str', 'int', 'sorted', 'min', 'max',
                'any', 'all', 'type', 'repr', 'callable', 'hasattr', 'getattr', 'dict', 'enumerate', 'zip', 'range', 'reversed'}
 # methods of the repository's own immutable records (config_parser.ImportStatement is a NamedTuple) that only read fields;
